@@ -89,3 +89,30 @@ add("C10", "twin-execution monitor (one object edited in place vs fresh deep "
     "Observable state compared by value; bitwise first, numerically "
     "equivalent (1e-6, identical hash) tolerated and counted because lmfit "
     "results are not bit-reproducible in ill-conditioned cases.")
+add("C17", "runtime oracle on compute_features over fitted / unfitted / "
+    "unsuccessful curve states: value classes, name order (each feature "
+    "recomputed alone), curve fingerprints, metamorphic force scaling "
+    "(2^n bitwise) and retract perturbation on value-copied curves",
+    "Held (apart from the listed known finding) on the curves and states "
+    "observed: synthetic over models/noise/spikes/short/long segments, all "
+    "recorded fmt-jpk-fd_s* curves incl. the bad ones.",
+    "Feature classes (fraction / signed / magnitude) as listed in the check; "
+    "clones carry columns and fit properties by value.")
+add("C09", "state x configuration monitor on rate_quality: wrapper on "
+    "nanite.indent.get_rater counts rater constructions, value compared with "
+    "an independently built standalone rater on the curve's features, "
+    "repetition / fresh-object / cross-process (PYTHONHASHSEED) determinism",
+    "Held (apart from the listed known finding) on the curve states and "
+    "configurations observed: 9 states x 7 regressors + 'none' x 5 kinds of "
+    "training set x feature subsets x lda.",
+    "Range demanded only for averaging tree regressors; standalone rater "
+    "built with the same arguments; two child processes for hash seeds.")
+add("C12", "metamorphic pair monitor on the real hash function "
+    "(IndentationFitter(...).hash): must-differ pairs per settings key / "
+    "parameter attribute / 1-ulp data change, must-be-equal representation "
+    "pairs and don't-cares, adversarial concatenation class, child processes "
+    "with three PYTHONHASHSEED values, tie to fit_properties['hash']",
+    "Held on the pairs observed: thousands per quick run over all "
+    "default-settings keys and all five parameter attributes.",
+    "Realistic SI value domains per key; invalid setting combinations are "
+    "skipped and counted.")
